@@ -106,9 +106,10 @@ class LunrIndexWriter:
             assert ob.parsed_docstring is not None
             try:
                 doc = ' '.join(node2stan.gettext(ob.parsed_docstring.to_node()))
-            except NotImplementedError:
-                # some ParsedDocstring subclass raises NotImplementedError on calling to_node()
-                # Like ParsedPlaintextDocstring.
+            except Exception:
+                # some ParsedDocstring subclass raises NotImplementedError on calling to_node(),
+                # and the conversion of a docstring can fail (this is reported when the docstring
+                # is rendered): index the raw text instead of aborting the run.
                 doc = source.docstring
         return doc
 
